@@ -42,6 +42,7 @@ Inductive zop :=
 | ZUn (code : Z) (a : nat) (m : mode)
 | ZApply (code : Z) (a : nat) (m : mode)        (* Dense.Apply(fn, opts...) = StdEng.Map *)
 | ZReduce (code : Z) (a : nat) (axes : list Z) (refused : bool)     (* 0 sum, 1 min, 2 max *)
+| ZReduceFn (code : Z) (a : nat) (axis : Z) (refused : bool)        (* Dense.Reduce(fn, axis, default): the generic entry point *)
 | ZArg (code : Z) (a : nat) (axis : Z) (refused : bool)             (* 0 argmax, 1 argmin; axis -1 = all *)
 | ZStack (t : nat) (axis : Z) (others : list nat)
 | ZConcat (t : nat) (axis : Z) (others : list nat)
@@ -126,6 +127,18 @@ Definition zstep_model (σ : store Z) (o : zop) : store Z * outcome Z :=
     | Err => (σ, RErr Z)
     | Panic => (σ, RPanic Z)
     end
+  | ZReduceFn code a axis _ =>
+    (* StdEng.Reduce: the axis dispatch of OptimizedReduce over the generic kernels, no
+       materialisation of views, the last-axis kernel folds from the default value (0 here) *)
+    match get_t Z σ a with
+    | None => (σ, RPanic Z)
+    | Some d =>
+      match optimized_reduce Z 0 (zred code) true (window Z σ d) d axis with
+      | Ok (sh, data) => let '(σ', t) := new_result σ sh data in (σ', RNew Z t)
+      | Err => (σ, RErr Z)
+      | Panic => (σ, RPanic Z)
+      end
+    end
   | ZArg code a axis _ =>
     match m_argbest Z (zbetter code) σ a axis with
     | Ok (sh, data) => let '(σ', t) := new_result σ sh data in (σ', RNew Z t)
@@ -194,6 +207,22 @@ Definition spec_vals_deliver (ς : sstate Z) (ta : nat) (sh : list Z) (vs : list
     end
   end.
 
+Definition spec_reduce_step (ς : sstate Z) (code : Z) (a : nat) (axes : list Z) (refused : bool) : option (sstate Z * outcome Z) :=
+    match sget Z ς a with
+    | None => None
+    | Some x =>
+      let dims := zlen (s_shape x) in
+      let axes' := match axes with [] => zseq 0 (Z.to_nat dims) | _ => axes end in
+      (* only genuine sets of axes of the tensor are covered by the property *)
+      if negb (forallb (fun i => (0 <=? i) && (i <? dims)) axes') || negb (nodup_z axes') then None
+      (* an unsupported layout may be refused (which layouts the library supports is its own
+         business; that it refuses the same ones as the MODEL is checked by the correspondence) *)
+      else if refused then Some (ς, RErr Z)
+      else
+        let '(sh, vs) := spec_reduce_vals Z 0 (zred code) (code =? 0) ς x axes' in
+        spec_vals_deliver ς a sh vs (0, O) false
+    end.
+
 Definition zstep_spec (ς : sstate Z) (o : zop) : option (sstate Z * outcome Z) :=
   match o with
   | ZBase b => step_spec Z 0 ς b
@@ -234,21 +263,8 @@ Definition zstep_spec (ς : sstate Z) (o : zop) : option (sstate Z * outcome Z) 
       spec_vals_deliver ς a (s_shape x) (map (fun v => Some (zun code v)) (slogical Z 0 ς x)) (mode_code m) (s_cm x)
     | None => None
     end
-  | ZReduce code a axes refused =>
-    match sget Z ς a with
-    | None => None
-    | Some x =>
-      let dims := zlen (s_shape x) in
-      let axes' := match axes with [] => zseq 0 (Z.to_nat dims) | _ => axes end in
-      (* only genuine sets of axes of the tensor are covered by the property *)
-      if negb (forallb (fun i => (0 <=? i) && (i <? dims)) axes') || negb (nodup_z axes') then None
-      (* an unsupported layout may be refused (which layouts the library supports is its own
-         business; that it refuses the same ones as the MODEL is checked by the correspondence) *)
-      else if refused then Some (ς, RErr Z)
-      else
-        let '(sh, vs) := spec_reduce_vals Z 0 (zred code) (code =? 0) ς x axes' in
-        spec_vals_deliver ς a sh vs (0, O) false
-    end
+  | ZReduce code a axes refused => spec_reduce_step ς code a axes refused
+  | ZReduceFn code a axis refused => spec_reduce_step ς code a [axis] refused
   | ZArg code a axis refused =>
     match sget Z ς a with
     | None => None
@@ -368,6 +384,19 @@ Definition zguard (σ : store Z) (o : zop) : gclass :=
     match m with
     | MReuse _ | MIncr _ => GApplyDest       (* Map never reads the operand in these modes *)
     | _ => guard_elementwise (tens [a]) (dst_of m) (rsize [a]) (rshape [a])
+    end
+  | ZReduceFn _ a axis _ =>
+    match tens [a] with
+    | d :: _ =>
+      match guard_read d with
+      | GOk =>
+        if is_cm (ord (d_ap d)) then GOrderMix
+        else if negb (is_materializable d) && negb (d_len d =? size (shp (d_ap d))) then GFlagUnsound
+        else if uses_bad_default (sort_z [axis]) 0 (shp (d_ap d)) then GReduceDefault
+        else GOk
+      | g => g
+      end
+    | [] => GOther
     end
   | ZReduce _ a axes _ =>
     match tens [a] with
